@@ -291,6 +291,21 @@ func cmdCheck(args []string) int {
 		reports = append(reports, rep)
 	}
 
+	// translator validation: encoding/xml model vs the real decoder on the repo's fixtures
+	var xmlmNote interface{}
+	if (id == "C08" || id == "C20") && *tier == "thorough" {
+		rep, err := runXMLMDiff()
+		if err != nil {
+			inconclusive = append(inconclusive, "xmlm differential: "+err.Error())
+		} else {
+			xmlmNote = rep
+			validated += rep.Agree
+			for _, d := range rep.Disagree {
+				inconclusive = append(inconclusive, "xmlm model disagrees with encoding/xml on a repo fixture: "+d)
+			}
+			fmt.Printf("xmlm differential: fixtures=%d decodings=%d agree=%d disagree=%d skipped=%d\n", rep.Fixtures, rep.Compared, rep.Agree, len(rep.Disagree), len(rep.Skipped))
+		}
+	}
 	wall := time.Since(t0).Seconds()
 	if len(samples) == 0 {
 		samples = append(samples, map[string]interface{}{"note": "no vacuity witness produced"})
@@ -324,6 +339,7 @@ func cmdCheck(args []string) int {
 			"queries_per_backend":           perBackend,
 			"solver_time_s":                 float64(smt.GlobalStats.Nanos) / 1e9,
 			"load_ssa_s":                    loadS,
+			"xmlm_fixture_differential":     xmlmNote,
 			"inconclusive":                  nonNil(inconclusive),
 			"exhaustive":                    len(inconclusive) == 0,
 		},
@@ -368,6 +384,8 @@ func assertionBelongsTo(aid, prop string) bool {
 	}
 	return false
 }
+
+func sxNewExplorer(p *sx.Program, name string) (*sx.Explorer, error) { return sx.NewExplorer(p, name) }
 
 func nonNil(s []string) []string {
 	if s == nil {
